@@ -28,8 +28,16 @@ def flt(m, e):
     return repr(m / (2 ** e))
 
 
+PRELUDE_PARTS = {"double": "double x = x * 2\n", "fact": "fact 0 = 1\nfact(n: Int): Int = n * fact(n - 1)\n",
+                 "inc": "inc = (x: Int) -> x + 1\n", "addd": "addd x, y := 10 = x + y\n"}
+
+
 def to_erg(prog, prelude=True):
-    L = [ERG_PRELUDE] if prelude else []
+    if prelude == "used":
+        used = set(st["op"].replace("addd2", "addd") for st in prog if st["k"] == "call")
+        L = ["".join(v for k, v in PRELUDE_PARTS.items() if k in used)]
+    else:
+        L = [ERG_PRELUDE] if prelude else []
     for n, st in enumerate(prog, 1):
         k, op, a, b, c, s = st["k"], st["op"], st["a"], st["b"], st["c"], st["s"]
         v = f"v{n}"
